@@ -383,6 +383,8 @@ pub struct C08Oracle {
     pub user_diag_outstanding: u64,
     outstanding: Option<usize>,
     awaiting_offline: Vec<bool>,
+    /// consecutive requests to the peripheral that were not answered by an acceptable reply
+    nongood_run: Vec<u32>,
 }
 
 impl C08Oracle {
@@ -399,6 +401,7 @@ impl C08Oracle {
             user_diag_outstanding: 0,
             outstanding: None,
             awaiting_offline: vec![false; n],
+            nongood_run: vec![0; n],
         }
     }
 }
@@ -488,6 +491,11 @@ impl DpOracle for C08Oracle {
         if let Some(l) = self.last[k].as_mut() {
             l.class = c;
         }
+        if c == Class::Good {
+            self.nongood_run[k] = 0;
+        } else {
+            self.nongood_run[k] += 1;
+        }
         if c == Class::None && self.live[k] && self.run_len[k] >= 1 + u32::from(v.cfg.max_retry) {
             // the limit is reached: the next thing concerning k must be the Offline event
             self.awaiting_offline[k] = true;
@@ -507,6 +515,7 @@ impl DpOracle for C08Oracle {
             self.awaiting_offline[*k] = false;
             self.last[*k] = None;
             self.run_len[*k] = 0;
+            self.nongood_run[*k] = 0;
         }
         Ok(())
     }
@@ -520,6 +529,11 @@ impl DpOracle for C08Oracle {
                     self.offline_events += 1;
                     if !self.live[k] {
                         return Err(Failure::new("offline-twice", format!("second Offline event for #{} without it having come back", v.cfg.pers[k].addr)));
+                    }
+                    // the retry counter starts over with every acceptable reply: Offline needs a run of
+                    // 1 + max_retry_limit requests without one
+                    if self.nongood_run[k] < 1 + u32::from(v.cfg.max_retry) {
+                        return Err(Failure::new("offline-although-answered", format!("Offline event for #{} although only the last {} request(s) to it went without an acceptable reply (retry limit {})", v.cfg.pers[k].addr, self.nongood_run[k], v.cfg.max_retry)));
                     }
                     self.live[k] = false;
                     self.expect_first[k] = true;
@@ -565,6 +579,7 @@ pub struct C14Oracle {
     pub events: u64,
     pub interrupted_cycles: u64,
     turn_ended_mid_cycle: bool,
+    turn_kind: Option<(Service, u8)>,
 }
 
 impl C14Oracle {
@@ -581,6 +596,7 @@ impl C14Oracle {
             events: 0,
             interrupted_cycles: 0,
             turn_ended_mid_cycle: false,
+            turn_kind: None,
         }
     }
     fn slot_of(v: &View, k: usize) -> usize {
@@ -595,7 +611,23 @@ impl DpOracle for C14Oracle {
         self.idle_cycles[k] = 0;
         Ok(())
     }
-    fn on_request(&mut self, v: &mut View, k: usize, _req: &RefFrame, _raw: &[u8]) -> Result<(), Failure> {
+    fn on_request(&mut self, v: &mut View, k: usize, req: &RefFrame, _raw: &[u8]) -> Result<(), Failure> {
+        // a turn is one request plus its retransmissions: every further request of the turn is the same
+        // service with the same function code (the payload of Data_Exchange may follow the outputs)
+        let RefFrame::Data { fc, .. } = req else { unreachable!() };
+        let kind = (service_of(req), *fc);
+        if self.runs.last() == Some(&k) {
+            if self.turn_kind.is_none() {
+                self.turn_kind = Some(kind);
+            }
+            if let Some(first) = self.turn_kind {
+                if first != kind {
+                    return Err(Failure::new("turn-mixes-requests", format!("the turn of peripheral #{} began with {:?} (function code {:#04x}) and continues with {:?} (function code {:#04x}): a turn is one request plus its retransmissions", v.cfg.pers[k].addr, first.0, first.1, kind.0, kind.1)));
+                }
+            }
+        } else {
+            self.turn_kind = Some(kind);
+        }
         if self.runs.last() != Some(&k) {
             if self.runs.contains(&k) {
                 return Err(Failure::new("second-turn", format!("peripheral #{} gets a second turn within one DP cycle (turns so far: {:?})", v.cfg.pers[k].addr, self.runs.iter().map(|i| v.cfg.pers[*i].addr).collect::<Vec<_>>())));
@@ -613,6 +645,8 @@ impl DpOracle for C14Oracle {
         if let UserAct::ResetAddress(k) = act {
             self.live[*k] = false;
             self.configured[*k] = false;
+            // a freshly reset peripheral starts over, also in the middle of its turn
+            self.turn_kind = None;
         }
         Ok(())
     }
